@@ -3,6 +3,10 @@
 From DepsDev Require Import Lib.Base Semver.Version Semver.Maven Semver.Gem.
 Local Open Scope Z_scope.
 
+(* category as the comparison loop uses it: the empty string counts as a qualifier *)
+Definition gcat (e : gem_elem) : Z :=
+  let k := version_category (ge_str e) in if k =? cat_eof then cat_qualifier else k.
+
 Definition gem_is_num (e : gem_elem) : bool := version_category (ge_str e) =? cat_numeric.
 
 (* The comparator ends with: if len(bs) > len(as) return -1, else 0.  It is reached with
@@ -22,3 +26,14 @@ Definition gem_c01_dom (v : version) : bool :=
 (* release-only versions (C10): no prerelease segment *)
 Definition gem_release_only (v : version) : bool :=
   negb (v_is_prerelease v) && match v_ext v with GemExt [] => true | _ => false end.
+
+Definition gem_elems (v : version) : list gem_elem := match v_ext v with GemExt l => l | _ => [] end.
+
+(* C02: what a parsed version looks like (hypothesis of the agreement theorem): numbers not
+   negative; elements numerals (value not negative) or words, the first one a word, the last
+   one not a numeral of value 0 *)
+Definition c02_wf_b (v : version) : bool :=
+  forallb (fun z => 0 <=? z) (v_num v)
+  && forallb (fun e => ((gcat e =? cat_numeric) && (0 <=? ge_int e)) || (gcat e =? cat_qualifier)) (gem_elems v)
+  && match gem_elems v with [] => true | e :: _ => gcat e =? cat_qualifier end
+  && gem_last_ok (gem_elems v).
